@@ -263,6 +263,15 @@ Decide(pol, ev) ==
   IF ms = {} THEN EncAct(pol.def)
   ELSE EncAct(pol.groups[CHOOSE i \in ms : \A k \in ms : i <= k].act)
 
+\* The same policy compiled for the x32 description of the architecture (arch.X32: the audit id of x86_64, the table of
+\* the x32 ABI, SeccompMask = the x32 bit).  Every number in the rules then carries the x32 bit, and the guard in front of
+\* the rules answers every number that carries it with ENOSYS: no rule can match any event, so a native event gets the
+\* default action.  (A consequence of the code as it is; the statement of C04 only fixes the ENOSYS half.)  Conformance
+\* only: the compiler model is not instantiated for this target.
+DecideX32Target(pol, ev) ==
+  IF ev.arch # "own" THEN EncAct(pol.def) ELSE
+  IF ev.nr >= X32Bit THEN "errno|ENOSYS" ELSE EncAct(pol.def)
+
 (* C07: the defects the statement lists (as far as a policy value of this  *)
 (* model can have them).                                                   *)
 GroupDefect(g) ==
